@@ -47,7 +47,8 @@ def cases(tier, seed):
     from ..space import fields as _fields
 
     extra = [{"kind": "wide", "edge": k} for k in graphs.ALL_KINDS]
-    fm = _fields.collisions(tier) + [c for c in _fields.singles(tier) if c["fields"][0]["kind"] == "string"]
+    # every field kind x required x default (IR and emitted code must agree with the reference on wire key, required flag and structural kind)
+    fm = _fields.collisions(tier) + [c for c in _fields.singles(tier) if c["fields"][0]["kind"] == "string" or c["fields"][0]["name"] == "val"]
     extra += [{"kind": "fieldmodels", "models": fm[i:i + 8]} for i in range(0, len(fm), 8)]
     return extra + graph_cases(tier, seed)
 
